@@ -12,18 +12,19 @@ package batchers
 
 //@ func (*Batcher).setSourceCount
 //@   requires !mu_held(s)
+//@   modifies s.sourceCount, ghost mu_held(s)
 //@   ensures !mu_held(s)
 //@ func (*Batcher).startFileReading
 //@   requires !mu_held(s)
+//@   modifies s.activeFiles, s.activeFiles[..], ghost mu_held(s)
 //@   ensures !mu_held(s)
 //@ func (*Batcher).stopFileReading
 //@   requires !mu_held(s)
+//@   modifies s.activeFiles, s.activeFiles[..], s.readCount, ghost mu_held(s)
 //@   ensures !mu_held(s)
-//@   loop 1 invariant mu_held(s) && rangelen() == len(s.activeFiles)
-//@ func (*Batcher).incErrors
-//@   requires !mu_held(s)
-//@   ensures !mu_held(s)
+//@   loop 1 invariant mu_held(s) && rangelen() == len(s.activeFiles) && ref(s.activeFiles) == old(ref(s.activeFiles)) && off(s.activeFiles) == old(off(s.activeFiles)) && len(s.activeFiles) == old(len(s.activeFiles))
 //@ func (*Batcher).incReadBytes
+//@   modifies s.readBytes
 //@ func (*Batcher).ReadBytes
 //@ func (*Batcher).ReadErrors
 //@   requires !mu_held(s)
@@ -34,3 +35,136 @@ package batchers
 //@ func (*Batcher).StatusString
 //@   requires !mu_held(s)
 //@   ensures !mu_held(s)
+
+// ---- C06: error accounting ----
+//@ func (*Batcher).incErrors
+//@   requires !mu_held(s)
+//@   modifies s.errorCount, ghost mu_held(s)
+//@   ensures !mu_held(s) && (old(s.errorCount) < 9223372036854775807 ==> s.errorCount == old(s.errorCount) + 1)
+
+// ---- C01 / C02: cutting a stream of lines into batches ----
+// n_lines: lines the scanner produced so far; sent_lines: lines already sent in a batch.
+// Every line is sent exactly once, in order, and each batch carries the 1-based number of
+// its first line.
+//@ ghost n_lines(rare/pkg/extractor/batchers.Batcher) int
+//@ ghost sent_lines(rare/pkg/extractor/batchers.Batcher) int
+//@ private readerMetrics writers newReaderMetrics, (*readerMetrics).Read, (*readerMetrics).CountReset
+//@ private Batcher writers newBatcher, (*Batcher).setSourceCount, (*Batcher).startFileReading, (*Batcher).stopFileReading, (*Batcher).incErrors, (*Batcher).incReadBytes, (*Batcher).StatusString
+
+//@ extern rare/pkg/logger.Printf
+//@   modifies world
+//@ func (*Batcher).syncReaderToBatcher$1
+//@   requires *s != nil && !mu_held(*s)
+//@   ensures !mu_held(*s) && (old((*s).errorCount) < 9223372036854775807 ==> (*s).errorCount == old((*s).errorCount) + 1)
+
+//@ func (*Batcher).syncReaderToBatcher
+//@   requires s != nil && reader != nil && s.c != nil && !chan_closed(s.c) && !mu_held(s) && batchSize >= 1
+//@   requires n_lines(s) == 0 && sent_lines(s) == 0
+//@   modifies world
+//@   ensures [all-sent] sent_lines(s) == n_lines(s)
+//@   ensures [never-closes] !chan_closed(s.c) && !mu_held(s)
+//@   havoc at "for readahead.Scan() {" : Batcher.errorCount
+//@   ghostset at "batch = append(batch, readahead.Bytes())" : n_lines(s) := old(n_lines(s)) + 1
+//@   ghostset at "s.c <- extractor.InputBatch{"#1 : sent_lines(s) := old(sent_lines(s)) + len(batch)
+//@   ghostset at "s.c <- extractor.InputBatch{"#2 : sent_lines(s) := old(sent_lines(s)) + len(batch)
+//@   assert at "s.c <- extractor.InputBatch{"#1 : batchStart == (1 + sent_lines(s) - len(batch)) % 18446744073709551616 && len(batch) == batchSize
+//@   assert at "s.c <- extractor.InputBatch{"#2 : batchStart == (1 + sent_lines(s) - len(batch)) % 18446744073709551616 && len(batch) >= 1 && len(batch) < batchSize
+//@   loop 1 invariant readahead != nil && readerMetrics != nil && wf(readahead) && !chan_closed(s.c) && !mu_held(s) && s.c != nil && readahead.onError != nil && err_reports(readahead.onError) >= 0
+//@   loop 1 invariant n_lines(s) == sent_lines(s) + len(batch) && len(batch) < batchSize && sent_lines(s) >= 0
+//@   loop 1 invariant batchStart == (1 + sent_lines(s)) % 18446744073709551616
+
+//@ func (*Batcher).syncReaderToBatcherWithTimeFlush$1
+//@   requires *s != nil && !mu_held(*s)
+//@   ensures !mu_held(*s) && (old((*s).errorCount) < 9223372036854775807 ==> (*s).errorCount == old((*s).errorCount) + 1)
+
+// same cutting discipline; a batch may additionally be flushed early by the timer (never empty)
+//@ func (*Batcher).syncReaderToBatcherWithTimeFlush
+//@   requires s != nil && reader != nil && s.c != nil && !chan_closed(s.c) && !mu_held(s) && batchSize >= 1
+//@   requires n_lines(s) == 0 && sent_lines(s) == 0
+//@   modifies world
+//@   ensures [all-sent] sent_lines(s) == n_lines(s)
+//@   ensures [never-closes] !chan_closed(s.c) && !mu_held(s)
+//@   havoc at "for readahead.Scan() {" : Batcher.errorCount
+//@   ghostset at "batch = append(batch, readahead.Bytes())" : n_lines(s) := old(n_lines(s)) + 1
+//@   ghostset at "s.c <- extractor.InputBatch{"#1 : sent_lines(s) := old(sent_lines(s)) + len(batch)
+//@   ghostset at "s.c <- extractor.InputBatch{"#2 : sent_lines(s) := old(sent_lines(s)) + len(batch)
+//@   assert at "s.c <- extractor.InputBatch{"#1 : batchStart == (1 + sent_lines(s) - len(batch)) % 18446744073709551616 && len(batch) >= 1 && len(batch) <= batchSize
+//@   assert at "s.c <- extractor.InputBatch{"#2 : batchStart == (1 + sent_lines(s) - len(batch)) % 18446744073709551616 && len(batch) >= 1 && len(batch) < batchSize
+//@   loop 1 invariant readahead != nil && readerMetrics != nil && wf(readahead) && !chan_closed(s.c) && !mu_held(s) && s.c != nil && readahead.onError != nil && err_reports(readahead.onError) >= 0
+//@   loop 1 invariant n_lines(s) == sent_lines(s) + len(batch) && len(batch) < batchSize && sent_lines(s) >= 0
+//@   loop 1 invariant batchStart == (1 + sent_lines(s)) % 18446744073709551616
+
+// ---- C05 / C06: the reader goroutines ----
+//@ ghost file_pos(ref) int
+//@ extern os.Open
+//@   params (name)
+//@   modifies nothing
+//@   ensures [assumed-open] (result1 == nil ==> result0 != nil && fresh(result0) && file_pos(result0) == 0) && (result1 != nil ==> result0 == nil)
+//@ extern compress/gzip.NewReader
+//@   params (r)
+//@   modifies ghost file_pos
+//@   ensures [assumed-gzip] result1 == nil ==> result0 != nil && fresh(result0)
+//@ extern os.(*File).Seek
+//@   params (f, offset, whence)
+//@   modifies ghost file_pos(f)
+//@   ensures [assumed-seek] whence == 0 ==> file_pos(f) == offset
+//@ iface io.ReadCloser.Close
+//@   params (this)
+//@   modifies world
+
+// C06: a file that turns out not to be gzip is handed on rewound to its first byte
+//@ func openFileToReader
+//@   modifies world
+//@   ensures [one-of] (result1 == nil) == (result0 != nil)
+//@   assert at "return file, nil" : baseFile != nil && (dynref(file) == baseFile ==> file_pos(baseFile) == 0)
+
+// forwards every name exactly once, then closes its output exactly once
+//@ func bufferChan
+//@   requires size >= 0
+//@   modifies world
+//@   ensures result != nil && !chan_closed(result)
+//@ func bufferChan$1
+//@   requires *out != nil && !chan_closed(*out)
+//@   modifies world
+//@   ensures chan_closed(*out)
+//@   ensures [all-forwarded] chan_sends(*out) - old(chan_sends(*out)) == chan_recvs(*in) - old(chan_recvs(*in))
+//@   loop 1 invariant !chan_closed(*out) && chan_sends(*out) - old(chan_sends(*out)) == chan_recvs(*in) - old(chan_recvs(*in))
+
+// One reader goroutine: on every way out it gives its semaphore slot back, signals Done once
+// and never closes the batch channel; a file that cannot be opened is counted as an error.
+//@ func OpenFilesToChan$1$1
+//@   requires *out != nil && !mu_held(*out) && (*out).c != nil && !chan_closed((*out).c) && *sema != nil && *batchSize >= 1
+//@   requires n_lines(*out) == 0 && sent_lines(*out) == 0
+//@   modifies world
+//@   ensures [slot-released] chan_recvs(*sema) == old(chan_recvs(*sema)) + 1
+//@   ensures [done-once] wg_done(wg) == old(wg_done(wg)) + 1
+//@   ensures [never-closes] !chan_closed((*out).c) && !mu_held(*out)
+//@   assert at "return" : old((*out).errorCount) < 9223372036854775807 ==> (*out).errorCount == old((*out).errorCount) + 1
+
+// The dispatcher: takes a slot and registers with the WaitGroup before each reader starts, and
+// closes the batch channel once, only after Wait.
+//@ func OpenFilesToChan$1
+//@   requires *out != nil && !mu_held(*out) && (*out).c != nil && !chan_closed((*out).c) && *sema != nil && !chan_closed(*sema) && *batchSize >= 1
+//@   requires n_lines(*out) == 0 && sent_lines(*out) == 0
+//@   modifies world
+//@   ensures chan_closed((*out).c)
+//@   assert at "go func(goFilename string) {" : (wg_added(addrof(wg)) - (go_started(0) - old(go_started(0))) - 1) % 18446744073709551616 == 0 && (chan_sends(*sema) - old(chan_sends(*sema)) - wg_added(addrof(wg))) % 18446744073709551616 == 0
+//@   assert at "out.close()" : wg_waited(addrof(wg))
+//@   loop 1 invariant !wg_waited(addrof(wg)) && !chan_closed((*out).c) && !chan_closed(*sema) && !mu_held(*out) && *out != nil && (*out).c != nil && *sema != nil && *batchSize >= 1
+//@   loop 1 invariant (wg_added(addrof(wg)) - readCount) % 18446744073709551616 == 0 && (go_started(0) - old(go_started(0)) - readCount) % 18446744073709551616 == 0 && (chan_sends(*sema) - old(chan_sends(*sema)) - readCount) % 18446744073709551616 == 0
+//@   loop 1 invariant n_lines(*out) == 0 && sent_lines(*out) == 0
+
+//@ func OpenFilesToChan
+//@   requires batchSize >= 1 && concurrency >= 0 && batchBuffer >= 0
+//@   modifies world
+//@   ensures result != nil && result.c != nil
+
+//@ func OpenReaderToChan$1
+//@   requires *out != nil && !mu_held(*out) && (*out).c != nil && !chan_closed((*out).c) && *reader != nil && *batchSize >= 1
+//@   requires n_lines(*out) == 0 && sent_lines(*out) == 0
+//@   modifies world
+//@   ensures chan_closed((*out).c)
+//@ func OpenReaderToChan
+//@   requires batchSize >= 1 && batchBuffer >= 0 && reader != nil
+//@   modifies world
+//@   ensures result != nil && result.c != nil
